@@ -8,7 +8,26 @@
 
 package logic
 
-import "github.com/q191201771/lal/pkg/hls"
+import (
+	"strings"
+
+	"github.com/q191201771/lal/pkg/hls"
+)
+
+// streamNameHasDotDotElement
+//
+// The per-stream hls directory and the record file names are made by joining the configured out path and the
+// stream name, which is chosen by the publishing client (rtmp: any string). A name with a ".." path element
+// ("..", "../x", "a/../../b") would make lal create, write and (hls cleanup) remove files outside the
+// configured directories, so such a stream gets no file output.
+func streamNameHasDotDotElement(streamName string) bool {
+	for _, e := range strings.FieldsFunc(streamName, func(r rune) bool { return r == '/' || r == '\\' }) {
+		if e == ".." {
+			return true
+		}
+	}
+	return false
+}
 
 func (group *Group) IsHlsMuxerAlive() bool {
 	group.mutex.Lock()
@@ -19,6 +38,11 @@ func (group *Group) IsHlsMuxerAlive() bool {
 // startHlsIfNeeded 必要时启动hls
 func (group *Group) startHlsIfNeeded() {
 	if !group.config.HlsConfig.Enable && !group.config.HlsConfig.EnableHttps {
+		return
+	}
+
+	if streamNameHasDotDotElement(group.streamName) {
+		Log.Errorf("[%s] hls disabled for this stream, stream name would escape hls out path. streamName=%s", group.UniqueKey, group.streamName)
 		return
 	}
 
